@@ -12,7 +12,7 @@ Open Scope Z_scope.
 Definition never_read (q : queue) : Prop :=
   q_first_incorrect q = NULL /\ pi_frame (q_pred q) = NULL /\ q_last_requested q = NULL.
 Definition LKx (p : p2p) : Prop :=
-  Forall never_read (s_queues (ps_sync p)) /\ s_last_confirmed (ps_sync p) <= s_current (ps_sync p) - 1 /\ ps_spectators p = [].
+  Forall never_read (s_queues (ps_sync p)) /\ s_last_confirmed (ps_sync p) <= s_current (ps_sync p) - 1.
 
 
 Lemma qi_shift : forall c c' L q hist low,
@@ -90,7 +90,7 @@ Lemma lockstep_advance : forall p gs d G,
     all_confirmed (o_requests o).
 Proof.
   intros p gs d G HQS HLK Hbnd (HG & HGI & HPN).
-  pose proof HLK as (HLKq & HLKl & Hnosp).
+  pose proof HLK as (HLKq & HLKl).
   pose proof HQS as [Hw Hd Hmode Hn Hconn Hgos HQ Hlast Hfr Hkinds Hpe Hsok].
   destruct Hw as (Hw1 & Hw2 & Hw3). destruct Hmode as (Hrun & Hsp & Hdf). destruct Hd as (Hd0 & Hcap).
   unfold advance. rewrite Hrun. cbn [negb].
@@ -220,10 +220,38 @@ Proof.
   assert (Ecf2 : confirmed_frame p2 = Ok cf) by (unfold confirmed_frame in *; rewrite Hst2; exact Ecf).
   rewrite Ecf2. cbn [res_bind].
   set (bk := Z.min cf (c2 - 1)).
-  unfold send_confirmed_inputs_to_spectators. rewrite Hss2, Hnosp. cbn [res_bind].
-  assert (Hsp2 : ps_sparse p2 = false).
-  { rewrite Hshape2. cbn [with_sync with_pending ps_sparse]. destruct (qs_mode _ _ _ _ HQS5) as (_ & X & _). exact X. }
-  rewrite Hsp2.
+  (* the broadcast to the spectators *)
+  set (ns := ps_next_spec p) in *.
+  set (ns' := next_spec_after p bk).
+  assert (Hlow4 : ps_spectators p <> [] -> 0 <= ns /\ L + 1 <= ns /\ Forall (fun g : ghost => snd g <= ns /\ ns <= hlen (fst g)) gs4).
+  { intros Hne. destruct (Hsok5 ltac:(rewrite Hss5; exact Hne)) as (S1 & S2 & S3). rewrite Hns5 in S1, S2, S3. rewrite Hs5, HL4 in S2. fold L ns in S1, S2, S3.
+    split; [exact S1|]. split; [exact S2|]. apply Forall_forall. intros g4 Hg4. rewrite Forall_forall in S3. pose proof (S3 g4 Hg4).
+    apply In_nth_error in Hg4. destruct Hg4 as (h & Hh).
+    destruct (nth_error_some_len (s_queues s4) gs4 h g4 Hlq5 Hh) as (q4 & Hq4).
+    pose proof (Forall2_nth _ _ _ _ _ _ HQ5 Hq4 Hh) as Hqi. cbv beta in Hqi. destruct (qi_low _ _ _ _ _ Hqi) as (Lw & _). split; lia. }
+  assert (Hsend : exists p3 o3, send_confirmed_inputs_to_spectators p2 bk o2 = Ok (p3, o3) /\
+            p3 = with_next_spec p2 ns' /\ o_requests o3 = o_requests o2 /\
+            o_spec_sends o3 = spec_sent p gs4 bk).
+  { unfold send_confirmed_inputs_to_spectators, spec_sent, next_spec_after in *. rewrite Hss2. fold ns in ns' |- *.
+    destruct (ps_spectators p) as [|b bs] eqn:Esp.
+    - exists p2, o2. split; [reflexivity|]. split; [subst ns'; rewrite <- Hns2; symmetry; apply with_next_spec_self|].
+      split; [reflexivity|exact Hos2].
+    - destruct (Hlow4 ltac:(discriminate)) as (S1 & S2 & S3).
+      destruct (spec_send_progress (Z.to_nat (bk - ps_next_spec p2 + 1)) p2 bk o2 gs4 c L) as (p3 & o3 & E3' & Hp3 & R1 & _ & R3).
+      + rewrite Hq2. exact HQ5.
+      + rewrite Hst2. exact Hconn5.
+      + rewrite Hst2, Hq2. lia.
+      + rewrite Hnp2, <- Hnp5. exact Hn51.
+      + rewrite Hns2. fold ns. apply Forall_forall. intros g0 Hg0. rewrite Forall_forall in S3, Hcfg.
+        pose proof (S3 g0 Hg0). pose proof (Hcfg g0 Hg0). subst bk. split; lia.
+      + reflexivity.
+      + rewrite Hns2 in Hp3, R3. fold ns in Hp3, R3. rewrite Hss2 in R3.
+        exists p3, o3. split; [exact E3'|]. split; [exact Hp3|]. split; [exact R1|]. rewrite R3, Hos2. reflexivity. }
+  destruct Hsend as (p3 & o3 & Es3 & Hp3 & Hor3 & Hos3). rewrite Es3. cbn [res_bind].
+  assert (Hsy3 : ps_sync p3 = ps_sync p2) by (rewrite Hp3; reflexivity).
+  assert (Hsp3 : ps_sparse p3 = false).
+  { rewrite Hp3, Hshape2. cbn [with_next_spec with_sync with_pending ps_sparse]. destruct (qs_mode _ _ _ _ HQS5) as (_ & X & _). exact X. }
+  rewrite Hsp3, Hsy3.
   pose proof (confirm_progress_gen predict (ps_sync p2) gs4 bk false) as Hcp. cbv zeta in Hcp.
   destruct Hcp as (s3 & E3 & Hsv3 & HL3 & Hsf3 & (gs3 & HQ3 & Hmap3) & Hcl3 & Hsu3 & Hpr3).
   { rewrite Hq2, HL2. fold c2. eapply QsI_shift; [exact HQ5|exact HLK4]. }
@@ -241,24 +269,32 @@ Proof.
   { rewrite Hq3. destruct (0 <? Z.min bk c2); [|exact HLK4].
     apply Forall_forall. intros q3 Hin. apply in_map_iff in Hin. destruct Hin as (q4 & <- & Hin4).
     rewrite Forall_forall in HLK4. destruct (HLK4 q4 Hin4) as (A & B & C).
-    pose proof (Forall2_len _ _ _ Hpr3) as Hl3.
     split; [rewrite discard_fi; exact A|]. split; [rewrite discard_pred; exact B|rewrite discard_last_requested; exact C]. }
   (* the state the call returns *)
-  set (base := with_pending p5 (ps_pending p2)).
-  assert (HQSb : QSg false 0 d base gs4).
-  { subst base. destruct Hc2 as [Hc|(Hc & _)].
+  set (base0 := with_pending p5 (ps_pending p2)).
+  assert (HQSb0 : QSg false 0 d base0 gs4).
+  { subst base0. destruct Hc2 as [Hc|(Hc & _)].
     - rewrite (Hpk2 Hc). replace (with_pending p5 (ps_pending p5)) with p5 by (destruct p5; reflexivity). exact HQS5.
     - rewrite (Hpa2 Hc). apply QS_no_pending. exact HQS5. }
-  assert (Hfinal : with_sync p2 s3 = with_sync base s3).
-  { rewrite Hshape2. subst base. cbn [with_sync]. reflexivity. }
+  set (base := with_next_spec base0 ns').
+  assert (Hns'ge : ps_spectators p <> [] -> ns <= ns' /\ bk + 1 <= ns').
+  { intros Hne. subst ns'. unfold next_spec_after. fold ns. destruct (ps_spectators p); [congruence|]. lia. }
+  assert (HQSb : QSg false 0 d base gs4).
+  { subst base. apply QS_next_spec; [exact HQSb0|].
+    intros Hne. subst base0. cbn [with_next_spec with_pending ps_spectators ps_next_spec ps_sync] in Hne |- *. rewrite Hss5 in Hne.
+    destruct (Hlow4 Hne) as (S1 & S2 & S3). destruct (Hns'ge Hne) as (N1 & N2). rewrite Hs5, HL4. fold L.
+    split; [lia|]. split; [lia|]. apply Forall_forall. intros g0 Hg0. rewrite Forall_forall in S3, Hcfg.
+    pose proof (S3 g0 Hg0). pose proof (Hcfg g0 Hg0). subst ns'. unfold next_spec_after. fold ns. destruct (ps_spectators p); [congruence|]. subst bk. lia. }
+  assert (Hfinal : with_sync p3 s3 = with_sync base s3).
+  { rewrite Hp3, Hshape2. subst base base0. cbn [with_sync with_next_spec with_pending]. reflexivity. }
   rewrite Hfinal.
   assert (HQS' : QSg false 0 d (with_sync base s3) gs3).
   { apply (QS_resync _ 0 d base gs4 s3 gs3 HQSb).
-    - subst base. cbn [with_pending ps_sync]. rewrite Hmp3, Hmp2, Hs5. reflexivity.
+    - subst base base0. cbn [with_next_spec with_pending ps_sync]. rewrite Hmp3, Hmp2, Hs5. reflexivity.
     - rewrite Hc3, HL3. exact HQ3.
     - apply map_fst_hlens. exact Hmap3.
     - rewrite Hc3, HL3b. subst bk. cbn [Z.max]. destruct Hc2 as [Hc|(Hc & Hadv)]; lia.
-    - subst base. cbn [with_pending ps_kinds]. rewrite Hc3. intros h k q3 gh3 A B C.
+    - subst base base0. cbn [with_next_spec with_pending ps_kinds]. rewrite Hc3. intros h k q3 gh3 A B C.
       destruct (map_fst_nth gs4 gs3 h gh3 Hmap3 C) as (gh4 & Cg & Efst). rewrite <- Efst.
       destruct (nth_error_some_len (s_queues s4) gs4 h gh4 Hlq5 Cg) as (q4 & Bq4).
       pose proof (Hkinds5 h k q4 gh4 A Bq4 Cg) as HK.
@@ -275,33 +311,53 @@ Proof.
       rewrite Nat2Z.id in Hdn. fold s4 c in Hdn. rewrite Hq2 in Bq4.
       destruct (Hdn q4 gh4 Bq4 Cg) as (Hh & Hu).
       split; [exact Hdel|]. split; [exact Hpn|]. right. left. split; [lia|]. split; [lia|lia].
-    - subst base. cbn [with_pending ps_pending]. rewrite Hc3. intros h pi X.
+    - subst base base0. cbn [with_next_spec with_pending ps_pending]. rewrite Hc3. intros h pi X.
       destruct Hc2 as [Hc|(Hc & _)]; [rewrite (Hpk2 Hc) in X; rewrite Hc; rewrite <- Hc4; rewrite <- Hs5; exact (Hpe5 h pi X)|rewrite (Hpa2 Hc) in X; discriminate X].
-    - intros Hne. exfalso. apply Hne. subst base. cbn [with_sync with_pending ps_spectators]. rewrite Hss5. exact Hnosp. }
-  exists (with_sync base s3), o2, AOk, gs3. split; [reflexivity|]. split; [exact HQS'|].
+    - intros Hne. subst base base0. cbn [with_sync with_next_spec with_pending ps_spectators ps_next_spec ps_sync] in Hne |- *. rewrite Hss5 in Hne.
+      destruct (Hlow4 Hne) as (S1 & S2 & S3). destruct (Hns'ge Hne) as (N1 & N2). rewrite HL3b.
+      split; [lia|]. split; [lia|]. apply Forall_forall. intros g3 Hg3. apply In_nth_error in Hg3. destruct Hg3 as (h & Hh).
+      destruct (map_fst_nth gs4 gs3 h g3 Hmap3 Hh) as (g4 & Cg & Efst). rewrite <- Efst.
+      rewrite Forall_forall in S3, Hcfg. pose proof (S3 g4 (nth_error_In _ _ Cg)). pose proof (Hcfg g4 (nth_error_In _ _ Cg)).
+      subst ns'. unfold next_spec_after. fold ns. destruct (ps_spectators p); [congruence|]. subst bk. lia. }
+  exists (with_sync base s3), o3, AOk, gs3. split; [reflexivity|]. split; [exact HQS'|].
   assert (HGI3 : GIl c2 (replay_hist G R2) (s_queues s3) gs3 /\ PNl c2 (s_queues s3) gs3).
   { split.
     - intros h q3 gh3 B C. destruct (map_fst_nth gs4 gs3 h gh3 Hmap3 C) as (gh4 & Cg & Efst). rewrite <- Efst.
       destruct (nth_error_some_len (s_queues s4) gs4 h gh4 Hlq5 Cg) as (q4 & Bq4).
       pose proof Bq4 as Bq4'. rewrite <- Hq2 in Bq4'.
       pose proof (Forall2_nth _ _ _ _ _ _ Hpr3 Bq4' B) as P3. cbv beta in P3.
-      rewrite Forall_forall in HLK3, HLK4. destruct (HLK3 q3 (nth_error_In _ _ B)) as (F3 & _). destruct (HLK4 q4 (nth_error_In _ _ Bq4)) as (F4 & _).
+      pose proof HLK3 as HLK3'. pose proof HLK4 as HLK4'. rewrite Forall_forall in HLK3', HLK4'.
+      destruct (HLK3' q3 (nth_error_In _ _ B)) as (F3 & _). destruct (HLK4' q4 (nth_error_In _ _ Bq4)) as (F4 & _).
       eapply GQ_ext; [rewrite F3, F4; reflexivity|exact P3|]. apply HGI2; assumption.
     - intros h q3 gh3 B C _. destruct (map_fst_nth gs4 gs3 h gh3 Hmap3 C) as (gh4 & Cg & Efst). rewrite <- Efst.
       destruct Hc2 as [Hc|(Hc & Hadv)].
       + rewrite Hc. destruct (nth_error_some_len (s_queues s4) gs4 h gh4 Hlq5 Cg) as (q4 & Bq4).
-        apply (HPN4 h q4 gh4 Bq4 Cg). rewrite Forall_forall in HLK4. destruct (HLK4 q4 (nth_error_In _ _ Bq4)) as (_ & X & _). exact X.
+        apply (HPN4 h q4 gh4 Bq4 Cg). pose proof HLK4 as HLK4'. rewrite Forall_forall in HLK4'. destruct (HLK4' q4 (nth_error_In _ _ Bq4)) as (_ & X & _). exact X.
       + rewrite Hc. rewrite Forall_forall in Hcfg. pose proof (Hcfg gh4 (nth_error_In _ _ Cg)). lia. }
   destruct HGI3 as (HGI3 & HPN3).
-  split; [split; [exact HLK3|split; [cbn [with_sync ps_sync]; rewrite HL3b, Hc3; subst bk; lia|subst base; cbn [with_sync with_pending ps_spectators]; rewrite Hss5; exact Hnosp]]|].
-  rewrite Ho2.
+  split; [split; [exact HLK3|cbn [with_sync ps_sync]; rewrite HL3b, Hc3; subst bk; lia]|].
+  rewrite Hor3, Ho2.
   split; [unfold SessionTimeline.TI; cbn [with_sync ps_sync]; rewrite Hc3; split; [exact HG2|split; [exact HGI3|exact HPN3]]|].
-  split.
+  assert (Hhist : hist_step d (ps_pending p) (local_handles p) gs gs3).
   { intros h0 gh' A. destruct (map_fst_nth gs4 gs3 h0 gh' Hmap3 A) as (gh4 & A4 & Efst).
     destruct (Hhist4 h0 gh4 A4) as (gh & Ag & Bg). exists gh. split; [exact Ag|]. rewrite <- Efst. exact Bg. }
-  split; [subst base; cbn [with_sync with_pending ps_kinds]; exact Hk5|].
+  split; [exact Hhist|].
+  split; [subst base base0; cbn [with_sync with_next_spec with_pending ps_kinds]; exact Hk5|].
   split.
-  { apply spec_step_none; [intros X; congruence|subst base; cbn [with_sync with_pending ps_spectators]; exact Hss5|subst base; cbn [with_sync with_pending ps_next_spec]; exact Hns5|exact Hos2]. }
+  { (* what was handed to the spectators, in terms of the histories held now *)
+    split; [subst base base0; cbn [with_sync with_next_spec with_pending ps_spectators]; exact Hss5|].
+    exists (Z.to_nat (bk - ns + 1)). rewrite Hos3. unfold spec_sent. fold ns.
+    assert (Hheld : forall f, held_at gs3 f = held_at gs4 f).
+    { intros f. unfold held_at. clear - Hmap3. revert gs3 Hmap3. induction gs4 as [|g4 gs4 IH]; intros [|g3 gs3] Hm; try discriminate; [reflexivity|].
+      cbn [map] in Hm |- *. injection Hm as E1 E2. rewrite E1. f_equal. apply IH. exact E2. }
+    split; [destruct (ps_spectators p); [reflexivity|]; destruct (existsb _ _); [|reflexivity]; apply map_ext; intros f; rewrite Hheld; reflexivity|].
+    split.
+    - subst base base0. cbn [with_sync with_next_spec with_pending ps_next_spec]. subst ns'. unfold next_spec_after. fold ns.
+      destruct (ps_spectators p); [reflexivity|lia].
+    - intros Hne. destruct (Hlow4 Hne) as (S1 & S2 & S3).
+      apply Forall_forall. intros g3 Hg3. apply In_nth_error in Hg3. destruct Hg3 as (h & Hh).
+      destruct (map_fst_nth gs4 gs3 h g3 Hmap3 Hh) as (g4 & Cg & Efst). rewrite <- Efst.
+      rewrite Forall_forall in S3, Hcfg. pose proof (S3 g4 (nth_error_In _ _ Cg)). pose proof (Hcfg g4 (nth_error_In _ _ Cg)). subst bk. lia. }
   split; [|exact HAC2].
   cbn [with_sync ps_sync]. rewrite Hc3. eapply Forall_impl; [|exact HTR2]. intros fi (Hlt & Ht). split; [exact Hlt|].
   apply (truthful_map_fst predict gs4 gs3); [exact Hmap3|exact Ht].
@@ -325,14 +381,14 @@ Proof.
   intros p gs g w d o _ (-> & HJI & HLK & gs0 & d0 & HQS & HTI) Hok.
   assert (Hgoal : exists s, sstep predict p o = Ok s /\ LKx (sr_state s) /\
             exists gs', QSg false 0 d0 (sr_state s) gs' /\ TI (sr_state s) gs' (replay_hist (g_hist g) (o_requests (sr_out s)))).
-  { pose proof HLK as (HLKq & HLKl & Hnosp).
+  { pose proof HLK as (HLKq & HLKl).
     destruct o as [h v|pl f v|ep st|hs|h|h dd|]; cbn [op_ok] in Hok; try discriminate.
     - destruct (local_progress _ 0 d0 p gs0 h v HQS) as (HQl & Hs & _).
       cbn [sstep]. destruct (api_add_local_input p h v) as [p1 r1] eqn:E1. cbn [fst] in *.
       exists (mksr p1 out0 r1). split; [reflexivity|]. cbn [sr_state sr_out out0 o_requests replay_hist].
       assert (Hsp1 : ps_spectators p1 = ps_spectators p).
       { unfold api_add_local_input in E1. destruct (kind_at p h) as [[| |]|]; injection E1 as <- _; reflexivity. }
-      split; [unfold LKx; rewrite Hs, Hsp1; exact HLK|]. exists gs0. split; [exact HQl|]. unfold SessionTimeline.TI in *. rewrite Hs. exact HTI.
+      split; [unfold LKx; rewrite Hs; exact HLK|]. exists gs0. split; [exact HQl|]. unfold SessionTimeline.TI in *. rewrite Hs. exact HTI.
     - apply andb_prop in Hok. destruct Hok as [Hok H5]. apply andb_prop in Hok. destruct Hok as [Hok H4].
       apply andb_prop in Hok. destruct Hok as [Hok H3]. apply andb_prop in Hok. destruct Hok as [H1 H2].
       destruct (nth_error (ps_kinds p) (Z.to_nat pl)) as [[|e|e]|] eqn:Ek; try discriminate.
@@ -343,7 +399,7 @@ Proof.
       rewrite E in E''. injection E'' as <-.
       cbn [sstep]. rewrite E. cbn [res_bind]. exists (mksr p' out0 AOk). split; [reflexivity|]. cbn [sr_state sr_out out0 o_requests replay_hist].
       split; [|exists (updz gs0 (Z.to_nat pl) (hist ++ [v], low)); split; [exact HQ'|exact HT']].
-      split; [|split; [rewrite HL', Hc'; exact HLKl|rewrite (ev_input_spectators _ _ _ _ _ E); exact Hnosp]].
+      split; [|rewrite HL', Hc'; exact HLKl].
       rewrite Hqs'. rewrite Forall_forall in HLKq. destruct (HLKq q (nth_error_In _ _ Eq)) as (A & B & C).
       apply Forall_updz; [apply Forall_forall; exact HLKq|].
       split; [rewrite F'; unfold fi_after; rewrite B; cbn [Z.eqb NULL]; exact A|].
@@ -351,7 +407,7 @@ Proof.
     - cbn [sstep]. exists (mksr (gossip p ep st) out0 AOk). split; [reflexivity|]. cbn [sr_state sr_out out0 o_requests replay_hist].
       assert (Hsy : ps_sync (gossip p ep st) = ps_sync p) by (unfold gossip; destruct (nth_error (ps_remotes p) (Z.to_nat ep)); reflexivity).
       assert (Hsp : ps_spectators (gossip p ep st) = ps_spectators p) by (unfold gossip; destruct (nth_error (ps_remotes p) (Z.to_nat ep)); reflexivity).
-      split; [unfold LKx; rewrite Hsy, Hsp; exact HLK|]. exists gs0. split.
+      split; [unfold LKx; rewrite Hsy; exact HLK|]. exists gs0. split.
       + apply gossip_progress; [exact HQS|]. apply Forall_forall. intros s0 Hs0. rewrite forallb_forall in Hok.
         specialize (Hok s0 Hs0). destruct (cs_disc s0); [discriminate|reflexivity].
       + unfold SessionTimeline.TI in *. rewrite Hsy. exact HTI.
@@ -386,6 +442,8 @@ Proof. intros w p g (_ & HJ & _). exact (ji_frame _ _ _ HJ). Qed.
 (* ---------- the step theorems for lockstep mode ---------- *)
 Definition lockstep_run_timeline :=
   run_timeline_g predict predict_idem predict_zero false CIl lockstep_CI_step lockstep_CI_adv lockstep_CI_frame.
+Definition lockstep_run_timeline_broadcast :=
+  run_timeline_broadcast_g predict predict_idem predict_zero false CIl lockstep_CI_step lockstep_CI_adv lockstep_CI_frame.
 Definition lockstep_requests_truthful_step :=
   requests_truthful_step_g predict predict_idem predict_zero false CIl lockstep_CI_step lockstep_CI_adv lockstep_CI_frame.
 
@@ -440,21 +498,21 @@ Qed.
 End Lockstep.
 
 (* the initial state of a lockstep session without spectators *)
-Lemma LKx_start : forall n d kinds eps, LKx (session_start n 0 false d kinds eps 0).
+Lemma LKx_start : forall n d kinds eps nspec, LKx (session_start n 0 false d kinds eps nspec).
 Proof.
-  intros n d kinds eps. unfold LKx, session_start, p2p_new, sync_new.
-  cbn [with_running with_queues ps_sync ps_spectators s_queues s_last_confirmed s_current repeat].
-  split; [|split; [unfold NULL; lia|reflexivity]].
+  intros n d kinds eps nspec. unfold LKx, session_start, p2p_new, sync_new.
+  cbn [with_running with_queues ps_sync s_queues s_last_confirmed s_current].
+  split; [|unfold NULL; lia].
   apply Forall_forall. intros q Hq. apply in_map_iff in Hq. destruct Hq as ([h q0] & <- & Hin).
   apply in_combine_r in Hin. apply repeat_spec in Hin. subst q0.
   destruct (nth_error kinds (Z.to_nat h)) as [[| |]|]; repeat split.
 Qed.
 
-Lemma QS_start_lockstep : forall n d kinds eps,
+Lemma QS_start_lockstep : forall n d kinds eps nspec,
   0 <= d -> d + 4 <= QLEN -> 0 < n -> Z.of_nat (length kinds) = n -> players_only kinds ->
-  QSg false 0 d (session_start n 0 false d kinds eps 0) (repeat ([], 0) (Z.to_nat n)).
+  QSg false 0 d (session_start n 0 false d kinds eps nspec) (repeat ([], 0) (Z.to_nat n)).
 Proof.
-  intros n d kinds eps Hd Hcap Hn Hlen Hpl.
+  intros n d kinds eps nspec Hd Hcap Hn Hlen Hpl.
   unfold session_start, p2p_new, sync_new.
   constructor; cbn [with_running with_queues ps_maxpred ps_sync ps_running ps_sparse ps_spectators ps_disc_frame ps_nplayers
                     ps_kinds ps_status ps_remotes ps_pending s_maxpred s_current s_last_confirmed s_queues].
@@ -478,15 +536,16 @@ Proof.
     + split; [reflexivity|]. unfold hlen. cbn. reflexivity.
     + unfold players_only in Hpl. rewrite Forall_forall in Hpl. exact (Hpl _ (nth_error_In _ _ A)).
   - intros h pi X. discriminate X.
-  - intros X. cbn [with_running ps_spectators repeat] in X. congruence.
+  - intros _. cbn [with_running ps_next_spec ps_sync with_queues s_last_confirmed]. split; [lia|]. split; [unfold NULL; lia|].
+    apply Forall_forall. intros g Hg. pose proof (hlen_nonneg (fst g)). lia.
 Qed.
 
 (* from the initial state: a lockstep session without spectators *)
 Theorem lockstep_from_start :
   forall (predict : Z -> Z), (forall x, predict (predict x) = predict x) -> predict 0 = 0 ->
-  forall ops n d kinds eps,
+  forall ops n d kinds eps nspec,
   0 <= d -> d + 4 <= QLEN -> 0 < n -> Z.of_nat (length kinds) = n -> players_only kinds ->
-  let p0 := session_start n 0 false d kinds eps 0 in
+  let p0 := session_start n 0 false d kinds eps nspec in
   srun_in predict p0 ops = Err \/
   exists p outs g gs, srun_in predict p0 ops = Ok (p, outs) /\ srun predict p0 ops = Ok (p, outs) /\
     exec_outs 0 (game0 0) outs = Some g /\ gframe g = s_current (ps_sync p) /\ QSg false 0 d p gs /\
@@ -494,16 +553,16 @@ Theorem lockstep_from_start :
     (forall h hist low f, nth_error gs h = Some (hist, low) -> 0 <= f < s_current (ps_sync p) ->
        f < hlen hist /\ gvalL (g_hist g) f h = hval hist f).
 Proof.
-  intros predict Hi Hz ops n d kinds eps Hd Hcap Hn Hlen Hpl p0.
-  pose proof (QS_start_lockstep n d kinds eps Hd Hcap Hn Hlen Hpl) as HQS0.
-  pose proof (TI_start predict Hi Hz n 0 d kinds eps 0) as HTI0.
+  intros predict Hi Hz ops n d kinds eps nspec Hd Hcap Hn Hlen Hpl p0.
+  pose proof (QS_start_lockstep n d kinds eps nspec Hd Hcap Hn Hlen Hpl) as HQS0.
+  pose proof (TI_start predict Hi Hz n 0 d kinds eps nspec) as HTI0.
   assert (HCI0 : CIl predict 0 p0 (game0 0)).
   { split; [reflexivity|]. split; [apply JI_start; lia|]. split; [apply LKx_start|].
     exists (repeat ([], 0) (Z.to_nat n)), d. split; [exact HQS0|exact HTI0]. }
   destruct (lockstep_run predict Hi Hz ops p0 _ (game0 0) d HQS0 HCI0 HTI0) as [E|(p & outs & gs & g & E1 & E2 & Ex & HQS & HCI & (HG & HGI & HPN) & HA)].
   - left. exact E.
   - right. exists p, outs, g, gs. split; [exact E1|]. split; [exact E2|]. split; [exact Ex|].
-    destruct HCI as (_ & HJ & (HLq & _ & _) & _).
+    destruct HCI as (_ & HJ & (HLq & _) & _).
     split; [exact (ji_frame _ _ _ HJ)|]. split; [exact HQS|]. split; [exact HA|].
     intros h hist low f Eg Hf.
     pose proof (qs_qs _ _ _ _ HQS) as HQ. pose proof (QsI_length _ _ _ _ HQ) as Hlq.
@@ -511,4 +570,36 @@ Proof.
     rewrite Forall_forall in HLq. destruct (HLq q (nth_error_In _ _ Eq)) as (A & B & _).
     pose proof (HPN h q (hist, low) Eq Eg B) as Hreach. cbn [fst] in Hreach.
     split; [lia|]. apply (gq_known _ _ _ _ _ _ (HGI h q (hist, low) Eq Eg)); [lia|cbn [fst]; lia|left; exact A].
+Qed.
+
+(* the host half of C06 for a lockstep host: everything handed to the spectators is frame 0, 1, 2, ... each once,
+   in order, with the inputs held for it; every frame up to the last confirmed frame has been sent *)
+Theorem lockstep_host_broadcast :
+  forall (predict : Z -> Z), (forall x, predict (predict x) = predict x) -> predict 0 = 0 ->
+  forall ops n d kinds eps nspec p outs,
+  0 <= d -> d + 4 <= QLEN -> 0 < n -> Z.of_nat (length kinds) = n -> players_only kinds -> (0 < nspec)%nat ->
+  srun_in predict (session_start n 0 false d kinds eps nspec) ops = Ok (p, outs) ->
+  exists gs, QSg false 0 d p gs /\
+    all_spec_sends outs = map (fun f => (f, held_at gs f)) (zrange_from 0 (Z.to_nat (ps_next_spec p))) /\
+    0 <= ps_next_spec p /\ s_last_confirmed (ps_sync p) + 1 <= ps_next_spec p /\
+    Forall (fun g : ghost => ps_next_spec p <= hlen (fst g)) gs.
+Proof.
+  intros predict Hi Hz ops n d kinds eps nspec p outs Hd Hcap Hn Hlen Hpl Hns H.
+  set (p0 := session_start n 0 false d kinds eps nspec) in *.
+  assert (Hsp : ps_spectators p0 = repeat true nspec) by reflexivity.
+  pose proof (QS_start_lockstep n d kinds eps nspec Hd Hcap Hn Hlen Hpl) as HQS0.
+  pose proof (TI_start predict Hi Hz n 0 d kinds eps nspec) as HTI0.
+  assert (HCI0 : CIl predict 0 p0 (game0 0)).
+  { split; [reflexivity|]. split; [apply JI_start; lia|]. split; [apply LKx_start|].
+    exists (repeat ([], 0) (Z.to_nat n)), d. split; [exact HQS0|exact HTI0]. }
+  destruct (lockstep_run_timeline_broadcast predict Hi Hz ops p0 _ (game0 0) 0 d HQS0 HCI0 HTI0)
+    as [E|(p' & outs' & gs & g & E1 & _ & HQS & _ & _ & _ & Hss & _ & Hmono & Hall)].
+  - rewrite Hsp. destruct nspec; [lia|discriminate].
+  - rewrite Hsp. destruct nspec; [lia|reflexivity].
+  - congruence.
+  - rewrite H in E1. injection E1 as <- <-. exists gs. split; [exact HQS|].
+    change (ps_next_spec p0) with 0 in Hall, Hmono. rewrite Z.sub_0_r in Hall.
+    split; [exact Hall|].
+    assert (Hne : ps_spectators p <> []) by (rewrite Hss, Hsp; destruct nspec; [lia|discriminate]).
+    exact (qs_spec _ _ _ _ HQS Hne).
 Qed.
